@@ -14,6 +14,7 @@ import GoNfsd.Lemmas.FsckMeta
 import GoNfsd.Lemmas.Names
 import GoNfsd.Lemmas.Refs
 import GoNfsd.Lemmas.Named
+import GoNfsd.Lemmas.Tree
 
 namespace GoNfsd.Props.C04
 open GoNfsd.Model.Fsck GoNfsd.Gen.Consts GoNfsd.Gen.Super
@@ -344,6 +345,60 @@ theorem root_is_permanent (u : Bool) (sz : Nat)
       GoNfsd.Gen.Consts.ROOTINUM :=
   ⟨(GoNfsd.Model.Fs.run_WFO _ ops (GoNfsd.Model.Fs.WFO_mkfs u sz)).root_dir,
    (GoNfsd.Model.Fs.run_WFO _ ops (GoNfsd.Model.Fs.WFO_mkfs u sz)).root_unnamed⟩
+
+/-- THE TREE CLAUSES, PARTIAL.  Full statement (what C04 asks): in every reachable state "."
+    names the directory itself, ".." names the directory holding its name, the root's ".." is
+    the root, and every object in use is reachable from the root.  Proved: for every history in
+    which no RENAME moves a directory to ANOTHER directory (`NoDirMoves`: decided operation by
+    operation on the state the operation meets; renames of files anywhere, of directories within
+    their directory, and renames over targets are all included).  Missing: histories with such a
+    move — there the statement is FALSE of model and code alike (`tree_clauses_fail_after_a_directory_move`
+    below; the known finding rename:directory-dotdot-and-cycles). -/
+theorem tree_clauses_partial (u : Bool) (sz : Nat)
+    (ops : List (GoNfsd.Model.Fs.Op × GoNfsd.Model.Fs.Choice))
+    (hn : GoNfsd.Model.Fs.NoDirMoves (GoNfsd.Model.Fs.mkfs u sz) ops) :
+    GoNfsd.Model.Fs.WFT (GoNfsd.Model.Fs.run (GoNfsd.Model.Fs.mkfs u sz) ops).1 :=
+  GoNfsd.Model.Fs.run_WFT _ ops (GoNfsd.Model.Fs.WFT_mkfs u sz) hn
+
+/-- every object in use is reachable from the root by names (same hypothesis) -/
+theorem every_live_object_reachable_partial (u : Bool) (sz : Nat)
+    (ops : List (GoNfsd.Model.Fs.Op × GoNfsd.Model.Fs.Choice))
+    (hn : GoNfsd.Model.Fs.NoDirMoves (GoNfsd.Model.Fs.mkfs u sz) ops) (ino : Nat)
+    (hk : ((GoNfsd.Model.Fs.run (GoNfsd.Model.Fs.mkfs u sz) ops).1.get ino).kind ≠ 0) :
+    GoNfsd.Model.Fs.Reach (GoNfsd.Model.Fs.run (GoNfsd.Model.Fs.mkfs u sz) ops).1 ino :=
+  (tree_clauses_partial u sz ops hn).tree ino hk
+
+/-- MKDIR /a; MKDIR /a/b; RENAME /a/b → /b -/
+def dirMoveHistory : List (GoNfsd.Model.Fs.Op × GoNfsd.Model.Fs.Choice) :=
+  [(.mkdir (GoNfsd.Model.Fs.mkFh 1 1) [97], { inum := 2, slot := 2 }),
+   (.mkdir (GoNfsd.Model.Fs.mkFh 2 1) [98], { inum := 3, slot := 2 }),
+   (.rename (GoNfsd.Model.Fs.mkFh 2 1) [98] (GoNfsd.Model.Fs.mkFh 1 1) [98], { slot := 3 })]
+
+/-- The full statement is false: after a directory was moved to another directory its ".." still
+    names the old parent (the model reproduces the code: the `seq` correspondence compares the
+    LOOKUP of ".." in exactly this scenario). -/
+theorem tree_clauses_fail_after_a_directory_move :
+    ¬ GoNfsd.Model.Fs.WFT (GoNfsd.Model.Fs.run (GoNfsd.Model.Fs.mkfs true 100000) dirMoveHistory).1 := by
+  intro h
+  have hr : GoNfsd.Model.Fs.Ref (GoNfsd.Model.Fs.run (GoNfsd.Model.Fs.mkfs true 100000) dirMoveHistory).1 1 3 3 :=
+    ⟨⟨3, [98]⟩, by decide, rfl, by decide, by decide⟩
+  obtain ⟨sl, hg, hi⟩ := h.dotdot 1 3 3 hr (by decide)
+  have hdd : ((GoNfsd.Model.Fs.run (GoNfsd.Model.Fs.mkfs true 100000) dirMoveHistory).1.get 3).slots[1]?
+      = some ⟨2, [46, 46]⟩ := by decide
+  rw [hdd] at hg
+  simp only [Option.some.injEq] at hg
+  rw [← hg] at hi
+  exact absurd hi (by decide)
+
+/-- Non-vacuity of `tree_clauses_partial`: a history with a file moved across directories over
+    an existing target, and a directory renamed within its directory, meets `NoDirMoves`. -/
+example : GoNfsd.Model.Fs.NoDirMoves (GoNfsd.Model.Fs.mkfs true 100000)
+      [(.mkdir (GoNfsd.Model.Fs.mkFh 1 1) [97], { inum := 2, slot := 2 }),
+       (.create (GoNfsd.Model.Fs.mkFh 2 1) [102] 0, { inum := 3, slot := 2 }),
+       (.create (GoNfsd.Model.Fs.mkFh 1 1) [103] 0, { inum := 4, slot := 3 }),
+       (.rename (GoNfsd.Model.Fs.mkFh 2 1) [102] (GoNfsd.Model.Fs.mkFh 1 1) [103], { slot := 3 }),
+       (.rename (GoNfsd.Model.Fs.mkFh 1 1) [97] (GoNfsd.Model.Fs.mkFh 1 1) [99], { slot := 2 })] := by
+  decide
 
 /-- Non-vacuity: a history with a cross-directory RENAME onto an existing target reaches a state
     with names in two directories. -/
